@@ -24,6 +24,45 @@ def fingerprint(header, ev, clause):
     return {'degenerate': 0 in sig, 'cse': header['opts']['cse'], 'symbolcls': header['opts']['symbolcls'], 'wrapper': header['opts']['wrapper']}
 
 
+def certificates_under_options(ctx, vectors):
+    """The irrational functions (sqrt, x ** 0.5, norm, normalized, exp) are decided by certificates (as in C19); the SAME
+    operands (same job seed) are evaluated under every option vector, and every result must pass the same certificate."""
+    import os
+    import json
+    from drive_cert import run_jobs
+    from drive_ops import lookup_event
+    from opscheck import describe_cfg
+    q = ctx.quick
+    us = [ucfg(sig=s) for s in ([1, 1], [0, 1], [1, 1, 1], [1, 1, -1], [0, 1, 1])] + ([] if q else [ucfg(sig=s) for s in ([1, -1], [1, 1, 1, -1], [0, 1, 1, 1])] + [named_ucfg('2DPGA')])
+    tdir = os.path.join(ctx.work, 'certopts')
+    os.makedirs(tdir, exist_ok=True)
+    jobs = []
+    for i, u in enumerate(us):
+        for j, v in enumerate(vectors):
+            opts = {k: x for k, x in v.items() if x not in (None,)}
+            jobs.append({'u': u, 'opts': opts, 'n': 16 if q else 80, 'seed': ctx.seed + 53 * i, 'out': os.path.join(tdir, f'o{i}_{j}.ndjson'), 'prefix': f'o{i}.{j}',
+                         'kinds': ['sqrt', 'sqrt', 'powhalf', 'norm', 'normalized', 'exp'], 'vtypes': ['float', 'int_over']})
+    res = run_jobs(jobs)
+    files = [r['out'] for r in res if r['events']]
+    n = 0
+    for f, (eid, clause) in ctx.validate('TraceOps.tla', 'TraceOps.cfg', files):
+        header, ev = lookup_event(f, eid)
+        if clause.startswith('MACHINERY'):
+            from tlc import MachineryError
+            raise MachineryError(f'{eid}: {clause}')
+        fp = fingerprint(header, ev, clause)
+        fp.update({'kind': 'cert', 'cert': ev['cert'], 'clause': clause, 'raised': ev['raised']})
+        ctx.report(f"{ev['cert']} ({ev['vtype']}) in {describe_cfg(header['u'])} options {header['opts']} x={ev['x'] if ev['cert'] != 'exp' else [ev['X'], '/', ev['g']]}: {clause}"
+                   + (f" (raised {ev['raised']})" if ev['raised'] else ''), fp, {'trace_header': header, 'event': ev, 'spec': 'TraceOps.tla'})
+    for f in files:
+        lines = list(open(f))
+        for line in lines[1:]:
+            ev = json.loads(line)
+            n += 1
+            ctx.nontrivial.add(('cert', lines[0], ev['cert'], json.dumps(ev['x']), json.dumps(ev['X'])))
+    ctx.extra['certificates_under_option_vectors'] = n
+
+
 def run(ctx):
     run_ref_mc(ctx)
     rng, q = ctx.rng, ctx.quick
@@ -67,6 +106,7 @@ def run(ctx):
             groups.append({'u': u, 'opts': opts, 'cases': cases, 'revisit': 0.5})
     run_plan(ctx, groups, budget=90, fingerprint=fingerprint, shards_per_group=1)
     ctx.extra['option_vectors'] = len(vectors)
+    certificates_under_options(ctx, [v for v in vectors if not v.get('graded')])
     return ctx.finish(
         rule='case = (configuration, option vector, operator, grade-block key patterns) on formal indeterminates; the same cases under all '
              '16 vectors of {cse} x {graded} x {symbol class} x {wrapper} plus a pretty-printing option; 31 operators; d = 2, 3, 4; '
